@@ -283,32 +283,33 @@ def collectFwd (m : MapIn) (mapCount : Nat) :
 
 /-- `IndexMapSubsetPlan::new(index_map, plan, bypass_empty, outer_map, inner_sets)`. -/
 def planNew (m : Option MapIn) (n2o : List (Nat × Nat)) (glyphset : List Nat) (bypassEmpty : Bool)
-    (acc : Acc) : R (MapPlan × Acc) := do
-  if bypassEmpty && m.isNone then return ({}, acc)
+    (acc : Acc) : R (MapPlan × Acc) :=
+  if bypassEmpty && m.isNone then pure ({}, acc) else
   let ef := match m with
     | some m => m.entryFormat % 64
     | none => 1
   let entrySize := ef / 16 % 4 + 1
   let bitCount := ef % 16 + 1
-  let outerBits := entrySize * 8 - bitCount                 -- saturating_sub
+  let outerBits := entrySize * 8 - bitCount                 -- saturating_sub (fix 7615279)
   let maxInners := List.replicate acc.innerSets.length 0
-  let lastGid ← scanBack m n2o.reverse none
-  match lastGid with
-  | none => return ({ outerBits, maxInners }, acc)
-  | some lg =>
+  match scanBack m n2o.reverse none with
+  | .error e => .error e
+  | .ok none => pure ({ outerBits, maxInners }, acc)
+  | .ok (some lg) =>
     let mapCount := (lg + 1) % 65536
     match m with
     | none =>
       -- `inner_sets[0]`, `max_inners[0]`: index panics without a subtable
       match acc.innerSets, n2o.getLast? with
       | s0 :: ss, some last =>
-        let acc' : Acc := { outerMap := bmAdd acc.outerMap 0,
-                            innerSets := setAddAll s0 (glyphset.map (· % 65536)) :: ss }
-        return ({ mapCount, maxInners := maxInners.set 0 (last.2 % 65536), outerBits }, acc')
+        pure ({ mapCount, maxInners := maxInners.set 0 (last.2 % 65536), outerBits },
+              { outerMap := bmAdd acc.outerMap 0,
+                innerSets := setAddAll s0 (glyphset.map (· % 65536)) :: ss })
       | _, _ => throw Err.trap
     | some mm =>
-      let (acc', mi) ← collectFwd mm mapCount n2o acc maxInners
-      return ({ mapCount, maxInners := mi, outerBits }, acc')
+      match collectFwd mm mapCount n2o acc maxInners with
+      | .error e => .error e
+      | .ok (acc', mi) => pure ({ mapCount, maxInners := mi, outerBits }, acc')
 
 /-- the loop of `remap`: fills `output_map`, tracks the largest new inner index. -/
 def remapGo (m : Option MapIn) (mapCount : Nat) (outerMap : List Nat) (innerMaps : List (List Nat)) :
@@ -336,17 +337,23 @@ def remap (p : MapPlan) (m : Option MapIn) (n2o : List (Nat × Nat)) (outerMap :
 def planRest (n2o : List (Nat × Nat)) (glyphset : List Nat) :
     List (Option MapIn) → Acc → R (List MapPlan × Acc)
   | [], acc => pure ([], acc)
-  | m :: ms, acc => do
-    let (p, acc') ← planNew m n2o glyphset true acc
-    let (ps, acc'') ← planRest n2o glyphset ms acc'
-    pure (p :: ps, acc'')
+  | m :: ms, acc =>
+    match planNew m n2o glyphset true acc with
+    | .error e => .error e
+    | .ok (p, acc') =>
+      match planRest n2o glyphset ms acc' with
+      | .error e => .error e
+      | .ok (ps, acc'') => pure (p :: ps, acc'')
 
 def remapAll (n2o : List (Nat × Nat)) (outerMap : List Nat) (innerMaps : List (List Nat)) :
     List MapPlan → List (Option MapIn) → R (List MapPlan)
-  | p :: ps, m :: ms => do
-    let p' ← remap p m n2o outerMap innerMaps
-    let ps' ← remapAll n2o outerMap innerMaps ps ms
-    pure (p' :: ps')
+  | p :: ps, m :: ms =>
+    match remap p m n2o outerMap innerMaps with
+    | .error e => .error e
+    | .ok p' =>
+      match remapAll n2o outerMap innerMaps ps ms with
+      | .error e => .error e
+      | .ok ps' => pure (p' :: ps')
   | _, _ => pure []
 
 structure SubsetPlan where
@@ -356,23 +363,28 @@ structure SubsetPlan where
   deriving Repr
 
 def subsetPlan (vardataCount : Nat) (maps : List (Option MapIn)) (n2o : List (Nat × Nat))
-    (glyphset : List Nat) (retainGids : Bool) : R SubsetPlan := do
-  if vardataCount = 0 then throw Err.dropped        -- `ReadError::MalformedData` (fix 67546f5)
+    (glyphset : List Nat) (retainGids : Bool) : R SubsetPlan :=
+  if vardataCount = 0 then throw Err.dropped else   -- `ReadError::MalformedData` (fix 67546f5)
   match maps with
   | [] => throw Err.trap                             -- `index_maps[0]`
   | m0 :: ms =>
-    let acc0 : Acc := { outerMap := [], innerSets := List.replicate vardataCount [] }
-    let (p0, acc1) ← planNew m0 n2o glyphset false acc0
-    let advSet : List Nat := if m0.isNone then acc1.innerSets.headD [] else []
-    let (ps, acc2) ← planRest n2o glyphset ms acc1
-    let outerMap := bmSort acc2.outerMap
-    let set0 := acc2.innerSets.headD []
-    let inner0 : List Nat :=
-      if m0.isNone && retainGids then set0.foldl bmAdd (bmFrom (n2o.map (·.2)))
-      else (setSubtract set0 advSet).foldl bmAdd (bmFrom advSet)
-    let innerMaps := inner0 :: acc2.innerSets.tail.map bmFrom
-    let plans ← remapAll n2o outerMap innerMaps (p0 :: ps) maps
-    pure { outerMap, innerMaps, plans }
+    match planNew m0 n2o glyphset false
+        { outerMap := [], innerSets := List.replicate vardataCount [] } with
+    | .error e => .error e
+    | .ok (p0, acc1) =>
+      let advSet : List Nat := if m0.isNone then acc1.innerSets.headD [] else []
+      match planRest n2o glyphset ms acc1 with
+      | .error e => .error e
+      | .ok (ps, acc2) =>
+        let outerMap := bmSort acc2.outerMap
+        let set0 := acc2.innerSets.headD []
+        let inner0 : List Nat :=
+          if m0.isNone && retainGids then set0.foldl bmAdd (bmFrom (n2o.map (·.2)))
+          else (setSubtract set0 advSet).foldl bmAdd (bmFrom advSet)
+        let innerMaps := inner0 :: acc2.innerSets.tail.map bmFrom
+        match remapAll n2o outerMap innerMaps (p0 :: ps) maps with
+        | .error e => .error e
+        | .ok plans => pure { outerMap, innerMaps, plans }
 
 /-! ## variations.rs: `DeltaSetIndexMap::serialize` -/
 
@@ -411,10 +423,11 @@ def mapBytes (m : MapOut) : List Nat :=
 /-- `serialize_index_maps`: identity plans leave a NULL offset. -/
 def serializeMaps : List MapPlan → R (List (Option MapOut))
   | [] => pure []
-  | p :: ps => do
-    let o ← if p.output.isEmpty then pure none else (serializeMap p).map some
-    let rest ← serializeMaps ps
-    pure (o :: rest)
+  | p :: ps =>
+    if p.output.isEmpty then (serializeMaps ps).map (none :: ·) else
+    match serializeMap p with
+    | .error e => .error e
+    | .ok mo => (serializeMaps ps).map (some mo :: ·)
 
 /-! ## `Hvar::subset` / `Vvar::subset` -/
 
@@ -434,11 +447,16 @@ structure TableOut where
   maps : List (Option MapOut)
   deriving Repr
 
-def subsetTable (t : TableIn) : R TableOut := do
-  let plan ← subsetPlan t.subs.length t.maps t.n2o t.glyphset t.retainGids
-  let store ← subsetStore t.axisCount t.regions t.subs plan.innerMaps
-  let maps ← serializeMaps plan.plans
-  pure { store, maps }
+def subsetTable (t : TableIn) : R TableOut :=
+  match subsetPlan t.subs.length t.maps t.n2o t.glyphset t.retainGids with
+  | .error e => .error e
+  | .ok plan =>
+    match subsetStore t.axisCount t.regions t.subs plan.innerMaps with
+    | .error e => .error e
+    | .ok store =>
+      match serializeMaps plan.plans with
+      | .error e => .error e
+      | .ok maps => pure { store, maps }
 
 /-! ## the reader's view (C11): `advance_delta` / `item_delta` -/
 
